@@ -39,7 +39,7 @@ Qed.
 Lemma atoms_move s msg src u dest fl s' :
   atoms_ok (links s) -> all_valid fl -> move s msg src u dest fl = Some s' -> atoms_ok (links s').
 Proof.
-  unfold move. destruct (src =? dest); [discriminate|].
+  unfold move. destruct dest as [dest|]; [|discriminate]. destruct (src =? dest); [discriminate|].
   destruct (insert (links s) _) as [l1|] eqn:E; [|discriminate]. intros H Hf [= <-]. simpl.
   apply atoms_filter. eapply atoms_insert; [exact H | | exact E]; simpl; exact Hf.
 Qed.
@@ -99,7 +99,7 @@ Qed.
 (** every operation keeps "all stored flags are RFC 3501 flags" *)
 Theorem atoms_step e s o : atoms_ok (links s) -> atoms_ok (links (step e s o)).
 Proof.
-  intros H. destruct o as [ro si mb q item new|ro si mb q item new|mb q dest|mb q dest|mb fl|ro mb]; simpl.
+  intros H. destruct o as [ro si mb q item new|ro si mb q item new|mb q dest|mb q dest|mb fl|ro mb|del|id]; simpl.
   - destruct ro; simpl; [assumption|]. destruct (flags_valid new) eqn:Ev; simpl; [|assumption].
     apply flags_valid_all in Ev. unfold store_seq. apply atoms_fold; [|assumption]. intros; now apply atoms_store_uid_one.
   - destruct ro; simpl; [assumption|]. destruct (flags_valid new) eqn:Ev; simpl; [|assumption].
@@ -111,6 +111,8 @@ Proof.
   - destruct (flags_valid fl) eqn:Ev; [|assumption]. apply flags_valid_all in Ev.
     unfold append. destruct (insert _ _) eqn:E; simpl; [|assumption]. eapply atoms_insert; [exact H | | exact E]; simpl; exact Ev.
   - destruct ro; [assumption|]. simpl. unfold expunge. now apply atoms_filter.
+  - unfold drop_spam. destruct (spam s); [|assumption]. destruct del; simpl; [now apply atoms_filter | assumption].
+  - unfold create_spam. destruct (spam s); assumption.
 Qed.
 
 Theorem atoms_run e : forall h s, atoms_ok (links s) -> atoms_ok (links (run e s h)).
